@@ -22,15 +22,16 @@ import (
 
 // c08Case is self-contained: replay = json of this struct in --arg.
 type c08Case struct {
-	It     string   `json:"it"`            // named iterable, see c08MakeIterable
-	K      string   `json:"k,omitempty"`   // key variable ("" = value-only form)
-	V      string   `json:"v"`             // value variable
-	Tmpl   string   `json:"tmpl"`          // template containing the loop
-	Pre    string   `json:"pre,omitempty"` // literal output expected before the loop's output
-	Suf    string   `json:"suf,omitempty"` // literal output expected after it
-	Pieces []string `json:"pieces"`        // per element: the body unrolled for that element
-	Brk    []bool   `json:"brk,omitempty"` // per element: break fires in that iteration
-	Shape  string   `json:"shape"`         // feature label used in the family id
+	It     string   `json:"it"`              // named iterable, see c08MakeIterable
+	K      string   `json:"k,omitempty"`     // key variable ("" = value-only form)
+	V      string   `json:"v"`               // value variable
+	Tmpl   string   `json:"tmpl"`            // template containing the loop
+	Pre    string   `json:"pre,omitempty"`   // literal output expected before the loop's output
+	Suf    string   `json:"suf,omitempty"`   // literal output expected after it
+	Pieces []string `json:"pieces"`          // per element: the body unrolled for that element
+	Brk    []bool   `json:"brk,omitempty"`   // per element: break fires in that iteration
+	Shape  string   `json:"shape"`           // feature label used in the family id
+	Again  bool     `json:"again,omitempty"` // also: parse once, Exec over another iterable of the kind, Exec over this one
 }
 
 type c08KV struct{ K, V interface{} }
@@ -69,6 +70,32 @@ type c08FuncIter func() interface{}
 func (f c08FuncIter) Next() interface{} { return f() }
 
 type c08ValIter struct{ st *c08Iter }
+
+// c08PtrIter hands out its elements by pointer; an element may be a typed nil pointer, which is a value
+// (only an untyped nil from Next means "exhausted").
+type c08PtrIter struct {
+	xs []*c08Plain
+	i  int
+}
+
+func (m *c08PtrIter) Next() interface{} {
+	if m.i >= len(m.xs) {
+		return nil
+	}
+	m.i++
+	return m.xs[m.i-1]
+}
+
+// c08Ptrs: n pointers, the ones at even positions are nil.
+func c08Ptrs(n int) []*c08Plain {
+	xs := make([]*c08Plain, n)
+	for i := range xs {
+		if i%2 == 1 {
+			xs[i] = &c08Plain{A: 10 + i}
+		}
+	}
+	return xs
+}
 
 func (v c08ValIter) Next() interface{} { return v.st.Next() }
 
@@ -244,6 +271,38 @@ func c08MakeIterable(name string) (*c08Iterable, error) {
 		ints()
 		cp := append([]interface{}{}, vals...)
 		it.Bind = func() map[string]interface{} { return map[string]interface{}{"xs": &c08Iter{xs: cp}} }
+	case "between": // between(a, a+n+1): the integers strictly between
+		it.VKind = "int"
+		for i := 0; i < n; i++ {
+			vals[i] = a + 1 + i
+		}
+		it.Expr = fmt.Sprintf("between(%d, %d)", a, a+n+1)
+		it.Bind = func() map[string]interface{} { return map[string]interface{}{} }
+	case "ptrs": // elements are pointers, some of them typed nil pointers: still elements
+		ps := c08Ptrs(n)
+		for i := range ps {
+			vals[i] = ps[i]
+		}
+		it.Bind = one(ps)
+	case "piter": // an Iterator whose Next yields typed nil pointers mid-stream: not exhausted
+		ps := c08Ptrs(n)
+		for i := range ps {
+			vals[i] = ps[i]
+		}
+		it.Bind = func() map[string]interface{} { return map[string]interface{}{"xs": &c08PtrIter{xs: ps}} }
+	case "anyiter": // an Iterator over mixed values, typed nil pointers among them
+		for i := 0; i < n; i++ {
+			switch i % 3 {
+			case 0:
+				vals[i] = (*c08Plain)(nil)
+			case 1:
+				vals[i] = 10 + i
+			default:
+				vals[i] = (*[]int)(nil)
+			}
+		}
+		cp := append([]interface{}{}, vals...)
+		it.Bind = func() map[string]interface{} { return map[string]interface{}{"xs": &c08Iter{xs: cp}} }
 	case "msi", "pmsi", "msa", "hash":
 		it.Class, it.KKind, it.VKind = "map", "str", "int"
 		m := map[string]int{}
@@ -266,6 +325,15 @@ func c08MakeIterable(name string) (*c08Iterable, error) {
 			it.Expr = "{" + strings.Join(ss, ", ") + "}"
 			it.Bind = func() map[string]interface{} { return map[string]interface{}{} }
 		}
+		return it, nil
+	case "msp": // map values are pointers, some of them typed nil pointers: still entries
+		it.Class, it.KKind = "map", "str"
+		m := map[string]*c08Plain{}
+		for i, p := range c08Ptrs(n) {
+			m[c08Letters[i]] = p
+			it.Elems = append(it.Elems, c08KV{c08Letters[i], p})
+		}
+		it.Bind = one(m)
 		return it, nil
 	case "mis":
 		it.Class, it.KKind, it.VKind = "map", "int", "str"
@@ -421,7 +489,7 @@ type c08Verdict struct {
 
 func c08Class(it *c08Iterable) string {
 	switch it.Group {
-	case "range", "until", "iter", "iteri", "fiter", "viter":
+	case "range", "until", "between", "iter", "iteri", "fiter", "viter", "piter", "anyiter":
 		return "iterator"
 	}
 	if it.Class == "map" {
@@ -516,29 +584,87 @@ func c08Eval(cs *c08Case, it *c08Iterable) (v c08Verdict) {
 	if o.Kind() == "ERR" {
 		return fail("wrong-error", "loop-errors", "every element's body renders without error, the loop fails: "+o.Err.Error())
 	}
-	if !strings.HasPrefix(o.Out, cs.Pre) || !strings.HasSuffix(o.Out, cs.Suf) || len(o.Out) < len(cs.Pre)+len(cs.Suf) {
-		return fail("wrong-output", "around-loop", fmt.Sprintf("text/tags around the loop: expected %q…%q, got %q", cs.Pre, cs.Suf, c08Short(o.Out)))
-	}
-	mid := o.Out[len(cs.Pre) : len(o.Out)-len(cs.Suf)]
-	if it.Class == "map" {
-		if !c08Match(mid, outs, brk) {
-			s := append([]string{}, outs...)
-			sort.Strings(s)
-			return fail("wrong-output", "unroll-mismatch", fmt.Sprintf("loop output %q is not a concatenation (in any entry order, ending at a break) of the per-entry outputs %q", c08Short(mid), s))
+	// check: out is what the unrolled side says (typ, what != "" when it is not)
+	check := func(out string) (string, string) {
+		if !strings.HasPrefix(out, cs.Pre) || !strings.HasSuffix(out, cs.Suf) || len(out) < len(cs.Pre)+len(cs.Suf) {
+			return "around-loop", fmt.Sprintf("text/tags around the loop: expected %q…%q, got %q", cs.Pre, cs.Suf, c08Short(out))
 		}
+		mid := out[len(cs.Pre) : len(out)-len(cs.Suf)]
+		if it.Class == "map" {
+			if !c08Match(mid, outs, brk) {
+				s := append([]string{}, outs...)
+				sort.Strings(s)
+				return "unroll-mismatch", fmt.Sprintf("loop output %q is not a concatenation (in any entry order, ending at a break) of the per-entry outputs %q", c08Short(mid), s)
+			}
+			return "", ""
+		}
+		want := ""
+		for i := range outs {
+			want += outs[i]
+			if brk[i] {
+				break
+			}
+		}
+		if mid != want {
+			return "unroll-mismatch", fmt.Sprintf("loop rendered %q, body rendered element by element %q", c08Short(mid), c08Short(want))
+		}
+		return "", ""
+	}
+	if typ, what := check(o.Out); typ != "" {
+		return fail("wrong-output", typ, what)
+	}
+	if !cs.Again {
 		return
 	}
-	want := ""
-	for i := range outs {
-		want += outs[i]
-		if brk[i] {
-			break
-		}
+	// 3. a history: the template parsed once and executed twice, first over ANOTHER iterable of the same
+	// kind, then over this one. The second execution is a render like any other: same unrolling.
+	other := c08Other(cs.It)
+	ot, err := c08MakeIterable(other)
+	if err != nil {
+		return
 	}
-	if mid != want {
-		return fail("wrong-output", "unroll-mismatch", fmt.Sprintf("loop rendered %q, body rendered element by element %q", c08Short(mid), c08Short(want)))
+	v.Tags = append(v.Tags, "again")
+	var tm *plush.Template
+	first := safeCall(3*time.Second, func() (string, error) {
+		t, err := plush.NewTemplate(cs.Tmpl)
+		if err != nil {
+			return "", err
+		}
+		tm = t
+		return t.Exec(c08Ctx(ot, nil))
+	})
+	if first.Kind() == "PANIC" || first.Kind() == "HANG" || tm == nil {
+		return // the other iterable is a case of its own
+	}
+	second := safeCall(3*time.Second, func() (string, error) { return tm.Exec(c08Ctx(it, nil)) })
+	switch second.Kind() {
+	case "PANIC":
+		return fail("panic", second.Site, "second Exec of the parsed template panicked: "+second.Panic)
+	case "HANG":
+		return fail("hang", "for-loop-second-exec", "second Exec of the parsed template did not return")
+	case "ERR":
+		return fail("wrong-error", "second-exec-errors", fmt.Sprintf("parsed once; after an Exec over %s the Exec over %s fails: %v", other, cs.It, second.Err))
+	}
+	if typ, what := check(second.Out); typ != "" {
+		return fail("wrong-output", "second-exec-"+typ, fmt.Sprintf("parsed once; after an Exec over %s, the Exec over %s: %s", other, cs.It, what))
 	}
 	return
+}
+
+// c08Other: another iterable of the same kind (one element more, or one less at the top length).
+func c08Other(name string) string {
+	parts := strings.Split(name, ":")
+	if len(parts) < 2 {
+		return name
+	}
+	n, _ := strconv.Atoi(parts[1])
+	if n < 6 {
+		n++
+	} else {
+		n--
+	}
+	parts[1] = strconv.Itoa(n)
+	return strings.Join(parts, ":")
 }
 
 // c08Record counts the case and files a failure under <type>:<iterable class>:<shape>.
@@ -578,11 +704,13 @@ func c08Run(rep *Report, cs *c08Case) {
 func init() {
 	oracles["C08"] = func(cfg Config) []*Report {
 		rep := NewReport("C08", "C08", cfg)
-		rep.Rule = "loop-unrolling equivalence, both sides rendered by plush: a for loop over a named iterable (slices of 8 element types, arrays, pointers to slice/array/map, array and hash literals, maps, range/until, 4 custom Iterator shapes, 6 nil forms, 10 non-iterables; lengths 0..6) with a generated body (text, emit key/value, let, fn literal, if/else-if/else, break/continue/return bare or in an if at every statement position, inner loops before/after/around control statements, depth<=3), printed one-statement-per-tag, with merged code tags, or wholly inside one tag, with text/tags after the closing brace; versus the generator's per-element straight-line unrolling (all loops unrolled, control statements resolved from the known element values), one render per element, concatenated up to the first break; maps: any entry order. Part A is an exhaustive grid (every iterable kind x length x control statement at every position x firing index x break/continue x 3 print styles), part B random bodies. All cases reach evalForExpression; ~85% have >=1 element; non-trivial = iterable with a body that runs; distinct by case text"
+		rep.Rule = "loop-unrolling equivalence, both sides rendered by plush: a for loop over a named iterable (slices of 8 element types, arrays, pointers to slice/array/map, array and hash literals, maps, range/until/between, 6 custom Iterator shapes, slices/maps/iterators of pointers with typed nil pointers among the elements, 6 nil forms, 10 non-iterables; lengths 0..6) with a generated body (text, emit key/value, let, fn literal, if/else-if/else, break/continue/return bare or in an if at every statement position, inner loops before/after/around control statements, depth<=3; an inner loop's iterable is a constant or is built when the loop is entered from the enclosing loop's variables: array literal of variables/arithmetic, in place or let-bound first, one-entry hash literal, range(x+c, x+d); an inner loop may live in a fn(p) defined in the body and called 1-2 times with different arguments, so the same loop node is entered repeatedly in one render), printed one-statement-per-tag, with merged code tags, or wholly inside one tag, with text/tags after the closing brace; versus the generator's per-element straight-line unrolling (all loops unrolled, control statements resolved from the known element values), one render per element, concatenated up to the first break; maps: any entry order. One case in five also parses the template once and executes it twice, first over another iterable of the same kind: the second execution must match the same unrolling. Part A is an exhaustive grid (every iterable kind x length x control statement at every position x firing index x break/continue x 3 print styles), part B random bodies. All cases reach evalForExpression; ~85% have >=1 element; non-trivial = iterable with a body that runs; distinct by case text"
 		rep.Notes = append(rep.Notes,
 			"open case, not flagged: a nil *[]T may render nothing or be an error (it is both 'nil' and 'pointer to an iterable'); today it is the error 'could not iterate over *[]int'",
 			"return inside a loop body is checked as DESIGN.md loopSpec states it (.ret out => out ++ rest): its value is emitted and only the iteration ends; the property text itself only names break/continue",
 			"a context variable holding untyped nil is an unknown identifier before the loop is reached, so nil iterables are produced by the nil literal, a helper returning nil, a missing map key, and typed nil slice/map",
+			"typed nil pointers are elements (of a slice, a map, or yielded by an Iterator's Next): only an untyped nil from Next means exhausted. Untyped nil ELEMENTS of []interface{} are not generated: a context variable holding untyped nil cannot be bound for the element-by-element side",
+			"an inner hash-literal iterable has at most one entry (the generator must know the order of the inner output); loops inside a fn mention only the fn's parameter and their own variables (no reliance on how a fn body sees its caller's scope)",
 			"blocks of `if` that emit are written <%= if … %> (a silent <% if %> drops its block's output; that is C02/C07 territory); inner loops in silent position have bodies without output")
 		if cfg.Arg != "" {
 			var cs c08Case
